@@ -331,7 +331,7 @@ def exchange(server, reqbytes, sid, complete_uploads=True, patient=False, track=
     """One datagram to the listening port from a fresh endpoint; first reply; for an accepted
     upload, one short block; then the change of the sandbox.  Returns the trace event."""
     sb = server.sb
-    sock, b, addr = first_reply(server, reqbytes, (patient if isinstance(patient, float) else 1.5) if patient else 0.06, bool(patient))
+    sock, b, addr = first_reply(server, reqbytes, (patient if isinstance(patient, float) else 1.5) if patient else 0.03, bool(patient))
     ev = {"e": "req", "sid": sid, "bytes": codes(reqbytes[:516]), "known": False, "tried": False, "completed": False,
           "up": "", "delta": [], "probe": False}
     upbytes = None
